@@ -2,6 +2,7 @@
 """Re-run every registered quick check against each stored seed (/verif/seeded/*/patch.diff applied to /repo and
 undone straight afterwards) and update meta.json's checks_reporting.  Documentation of checker validation."""
 import json, os, subprocess, sys, glob
+from concurrent.futures import ThreadPoolExecutor
 
 only = set(sys.argv[1:])
 man = json.load(open('/verif/MANIFEST.json'))
@@ -20,9 +21,10 @@ for d in sorted(glob.glob('/verif/seeded/*/')):
     subprocess.check_call(['git', '-C', '/repo', 'apply', patch])
     caught = {}
     try:
-        for c in man['checks']:
-            pid = c['property_id']
-            r = subprocess.run(c['quick_cmd'], shell=True, cwd='/verif', capture_output=True, text=True)
+        with ThreadPoolExecutor(max_workers=10) as ex:
+            results = list(ex.map(lambda c: (c['property_id'], subprocess.run(
+                c['quick_cmd'], shell=True, cwd='/verif', capture_output=True, text=True)), man['checks']))
+        for pid, r in results:
             if r.returncode != 0:
                 lines = [l for l in r.stdout.splitlines() if l.startswith('  C') or l.startswith('ANALYSIS-ERROR')]
                 caught[pid] = {'exit': r.returncode, 'reports': lines[:4]}
